@@ -86,7 +86,7 @@ def run(ctx):
     nsched = 80 if q else 4000
     sjobs = []
     for i in range(nsched):
-        sjobs.append((packconc.make(rng), ctx.seed * 1000 + i, os.path.join(ctx.scratch, 'pc-%d' % i), {'stick': (0.3, 0.6, 0.8)[i % 3]}))
+        sjobs.append((packconc.make(rng), ctx.seed * 1000 + i, os.path.join(ctx.scratch, 'pc-%d' % i), {'stick': (0.3, 0.6, 0.8)[i % 3], 'yield_io': i % 2 == 1}))
     sres = par.pmap(packconc.run, sjobs, chunksize=4)
     good = []
     for r in sres:
@@ -111,7 +111,7 @@ def run(ctx):
         if r.get('switches', 0) >= 4:
             during += 1
     return ctx.finish({
-        'schedules': {'run': len(sres), 'judged': len(good), 'with_4_switches': during,
+        'schedules': {'with_io_yields': sum(1 for j in sjobs if j[3].get('yield_io')), 'run': len(sres), 'judged': len(good), 'with_4_switches': during,
                       'second_packer_refused': sum(1 for r in sres for n_, po in r['pack_outcomes'] if 'Already packing' in po),
                       'reads_checked': sum(len(r['reads']) for r in good)},
         'evaluations': images + cov['behaviours'] + len(sres),
@@ -125,7 +125,7 @@ def run(ctx):
                 'B: behaviours in which packs fail (each of the first writes of the .pack file raises in turn) are replayed: '
                 'pack must raise, history and all answers unchanged, later commits and packs must not block and must behave as '
                 'specified; C: a packer, 1-2 committers, a reader and sometimes a second packer run as real threads on the real '
-                'FileStorage under the cooperative scheduler (seeded, switching at lock operations); afterwards TLC evaluates '
+                'FileStorage under the cooperative scheduler (seeded, switching at lock operations and, in every second run, at every raw read/write of the data and .pack files); afterwards TLC evaluates '
                 'the serial equivalent <commits in tid order> pack(T) and the storage in memory and after reopen must answer '
                 'every query like it, every value a reader saw must be a committed revision, the second packer must be '
                 'refused or run after; TLC checks ZPackConc (lock hand-over with a concurrent committer, failing pack, crash) for the '
